@@ -280,7 +280,7 @@ def gen_op(d: D, prof: dict, name: str, depth: int = 0) -> dict:
             op["func_kind"] = d.i(0, 4)
         if d.p(0.5) or not bad:
             bad.append("nc")
-            op["nc_val"] = d.i(0, 2)
+            op["nc_val"] = d.i(0, 3)
         op["bad"] = bad
     elif name == "new_pool":
         op.pop("pool", None)
@@ -299,6 +299,8 @@ def gen_pool(d: D, prof: dict) -> dict:
         spec["name"] = "named%d" % d.i(0, 9)
     elif d.p(0.08):
         spec["name"] = d.pick(["100%", "a%%b", "%s", "%d-pool", "x y", "näme", "{0}", "p_Task-1"]) + str(d.i(0, 3))
+    elif d.p(0.05):
+        spec["name"] = ""          # a blank name (e.g. from an unset config value) is no name
     if spec["size"] is not None and d.p(0.1):
         spec["size_as_float"] = True          # 2.0 is as good a size as 2 (the parameter is annotated float)
     if cls == "SimpleTaskPool":
